@@ -5,7 +5,8 @@ case: ( kind form payload fmt )
   form 0 integer scalar (payload Z) | 1 float scalar (payload literal text) |
        2 quoted string (payload code points) | 3 YAML plain scalar (payload code points) |
        4 integer scalar in an alternative YAML spelling (payload ( Z text ))
-  fmt 0 serde_yaml | 1 serde_json
+  fmt 0 serde_yaml | 1 serde_json | 2 toml (integer scalars inside i64 - they reach the visitor as i64 -
+       and quoted strings only)
 result: (0) rejected | (1 limit) | (1 unit n)"""
 import itertools
 from vcommon import Zv
@@ -214,7 +215,7 @@ def compare(c, iv, mv):
     return None
 
 
-def corpus():
+def _corpus0():
     out = []
     for t in ("1M", "1m", "1M 1m", "30 seconds", "30 Seconds", "5 MIN"):
         out += str_cases(2, t)
@@ -228,7 +229,7 @@ def corpus():
     return out
 
 
-def cases(rng, tier):
+def _cases0(rng, tier):
     out = refresh_cases(rng, tier)
     thorough = tier == "thorough"
     # 1. every casing of every unit x numbers
@@ -342,6 +343,38 @@ def cases(rng, tier):
     return out
 
 
+def _toml_twins(cs, every, rng=None):
+    """the same literal through the TOML front-end (integers arrive at the visitors as i64 there, not u64):
+    integer scalars inside i64 and quoted strings of size / interval cases"""
+    out, k = [], 0
+    for c in cs:
+        kind, form, p, fmt = c
+        if kind == 2 or fmt == 2:
+            continue
+        if form == 0:
+            z = -p[1] if p[0] else p[1]
+            if not (-T63 <= z < T63):
+                continue
+            k += 1
+            if every > 2 and k % 2 == 0:      # integer scalars are few: every second one
+                out.append([kind, form, p, 2])
+        elif form == 2:
+            k += 1
+            if k % every == 0:
+                out.append([kind, form, p, 2])
+    return out
+
+
+def corpus():
+    out = _corpus0()
+    return out + _toml_twins(out, 2)
+
+
+def cases(rng, tier):
+    out = _cases0(rng, tier)
+    return out + _toml_twins(out, 7 if tier == "quick" else 3)
+
+
 def nontrivial(c):
     kind, form, p, fmt = c
     if form in (0, 1, 4):
@@ -352,7 +385,7 @@ def nontrivial(c):
 def classify(c):
     kind, form, p, fmt = c
     return "%s/%s/%s" % (("size", "interval", "refresh_rate")[kind], ("int", "float", "quoted", "plain", "altint")[form],
-                         ("yaml", "json")[fmt])
+                         ("yaml", "json", "toml")[fmt])
 
 
 def describe(c):
@@ -367,4 +400,4 @@ def describe(c):
         v = "".join(chr(x) for x in p)
     return {"field": ("limit", "interval", "refresh_rate")[kind], "scalar_form": ("integer", "float", "quoted string", "plain string",
                                                                   "integer (alternative spelling)")[form],
-            "scalar": v, "front_end": ("serde_yaml", "serde_json")[fmt]}
+            "scalar": v, "front_end": ("serde_yaml", "serde_json", "toml")[fmt]}
